@@ -378,6 +378,7 @@ def hash_eq_agree(F, rep, rule="C13.hash-eq"):
                else "hash reads %s; eq compares %s" % (sorted(x[1] for x in hs), sorted(x[1] for x in es)), hf.span, fn=hf.path,
                key="%s|%s" % (rule, mir.short(ty)))
     rep.floor(rule + " types with both Hash and PartialEq", n, 6)
+    signed_zero(F, rep, rule)
     # stability: the hash of a filed key must not change while it sits in the table.  A hash() that reads through a GcCell hashes state that
     # every alias of the value can still change.
     m = 0
@@ -415,3 +416,58 @@ def hash_eq_agree(F, rep, rule="C13.hash-eq"):
                 "leaves the entry filed under a stale hash" % cells[0].span) if cells else "", hf.span, fn=hf.path,
                key="%s|stable|%s" % (rule, mir.short(ty)))
     rep.floor(rule + " Hash bodies examined", m, 7)
+
+
+
+def signed_zero(F, rep, rule="C13.hash-eq"):
+    """`0.0 == -0.0` (the derived eq of Primitive compares floats with ==), so as map keys they are one key: hash() must feed the hasher the
+    same values for both.  <Primitive as Hash>::hash is evaluated abstractly on Float(0.0), Float(-0.0) (must agree) and on Float(1.5),
+    Float(-1.5) (must differ: the rule is not blind), recording what reaches Hash::hash."""
+    import struct
+    import absint
+    from absint import Interp, Flt, Int, Opaque, Variant, Ptr
+    PRIM = "bytecode::variables::primitive::Primitive"
+    hf = None
+    for i in F.crates["bytecode"].impls:
+        if (i.get("trait") or "") == "core::hash::Hash" and mir.strip_generics(i["self"]) == PRIM:
+            hf = F.fn([x for x in i["items"] if x.endswith("::hash")][0])
+    a = F.adt(PRIM)
+    if hf is None or a is None:
+        raise AnchorMissing("impl Hash for Primitive")
+    names = [v["name"] for v in a["variants"]]
+
+    def full(it, p, v):
+        k = 0
+        while isinstance(v, Ptr) and k < 8:
+            v = it.deref(p, v)
+            k += 1
+        return v
+
+    def to_bits(it, p, fid, fn, t, args):
+        v = full(it, p, args[0])
+        if isinstance(v, Flt):
+            return Int(struct.unpack("<Q", struct.pack("<d", v.v))[0], "u64")
+        return NotImplemented
+
+    def hashed(it, p, fid, fn, t, args):
+        v = full(it, p, args[0])
+        p.events.append(("hashed", repr(v)))
+        return absint.Tup([])
+    models = dict(absint.DEFAULT_MODELS)
+    models.update({"core::f64::<impl f64>::to_bits": to_bits, "core::hash::Hash::hash": hashed})
+
+    def feed(x):
+        it = Interp(F, models=models, max_depth=6, max_paths=64)
+        outs = it.run(hf, [Variant(PRIM, names.index("Float"), "Float", [Flt(x)]), Opaque("hasher")])
+        seqs = {tuple(e[1] for e in o.events if e[0] == "hashed") for o in outs if o.kind == "return"}
+        if it.exhausted or len(seqs) != 1 or any(o.kind != "return" for o in outs):
+            return None
+        return seqs.pop()
+    z, nz, a1, a2 = feed(0.0), feed(-0.0), feed(1.5), feed(-1.5)
+    if None in (z, nz, a1, a2) or not z or a1 == a2:
+        rep.ob(rule, "0.0 and -0.0 are one map key (equal by ==): they hash alike", "undecided",
+               "evaluation of hash() on floats: %s / %s / %s / %s" % (z, nz, a1, a2), hf.span, fn=hf.path, key=rule + "|signed-zero")
+        return
+    rep.ob(rule, "0.0 and -0.0 are one map key (equal by ==): they hash alike", "ok" if z == nz else "violated",
+           "" if z == nz else "hash(0.0) feeds %s, hash(-0.0) feeds %s: `m[0.0] = 1` / `m.contains_key(0.0 * -1.0)` is false although the keys are ==" % (z, nz),
+           hf.span, fn=hf.path, key=rule + "|signed-zero")
